@@ -54,6 +54,13 @@ EDITS = {
         ("wa03", RT + "wasm.rs", "    current.data[pos] = input.to_bits();\n\n    old_value", "    current.data[pos] = old_bits;\n\n    old_value", "both", "wasm_state"),
         ("wa04", RT + "wasm.rs", "        current.pos = current.pos.saturating_sub(delta);\n    } else {\n        let delta_u64 = offset.unsigned_abs();\n        let delta = usize::try_from(delta_u64).unwrap_or(usize::MAX);\n        current.pos = current.pos.saturating_add(delta);",
          "        current.pos = current.pos.saturating_sub(delta + 1);\n    } else {\n        let delta_u64 = offset.unsigned_abs();\n        let delta = usize::try_from(delta_u64).unwrap_or(usize::MAX);\n        current.pos = current.pos.saturating_add(delta);", "both", "wasm_state"),
+        ("mg01", "crates/lib/mimium-lang/src/compiler/mirgen.rs", "                    [vec![skeleton], states].concat(),", "                    [states, vec![skeleton]].concat(),", "verus", "mirgen_state"),
+        ("mg02", "crates/lib/mimium-lang/src/compiler/mirgen.rs", "                    [astates, vec![new_skeleton]].concat(),", "                    [vec![new_skeleton], astates].concat(),", "verus", "mirgen_state"),
+        ("mg03", "crates/lib/mimium-lang/src/compiler/mirgen.rs", "        if is_stateful {\n            self.consume_and_insert_pushoffset();\n        }\n", "", "verus", "mirgen_state"),
+        ("mg04", "crates/lib/mimium-lang/src/compiler/mirgen.rs", "            self.get_ctxdata().push_sum += offset;\n", "", "verus", "mirgen_state"),
+        ("mg05", "crates/lib/mimium-lang/src/compiler/mirgen.rs", "                                Instruction::PopStateOffset(push_sum),", "                                Instruction::PopStateOffset(push_sum + 1),", "verus", "mirgen_state"),
+        ("mg06", "crates/lib/mimium-lang/src/compiler/mirgen.rs", "                self.get_ctxdata().next_state_offset = Some(skeleton.total_size());\n                (Some(Instruction::Mem(a0)), vec![skeleton])", "                self.get_ctxdata().next_state_offset = Some(skeleton.total_size() + 1);\n                (Some(Instruction::Mem(a0)), vec![skeleton])", "verus", "mirgen_state"),
+        ("mg07", "crates/lib/mimium-lang/src/compiler/mirgen.rs", "                self.consume_and_insert_pushoffset();\n                self.get_ctxdata().next_state_offset = Some(new_skeleton.total_size());", "                self.get_ctxdata().next_state_offset = Some(new_skeleton.total_size());", "verus", "mirgen_state"),
         ("am01", RT + "vm.rs", "                    let ptr = self.get_current_state().get_state_mut(1);\n                    ptr[0] = s;", "                    let ptr = self.get_current_state().get_state_mut(1);\n                    ptr[0] = v;", "kani", "runtime"),
         ("am02", RT + "vm.rs", "                    self.set_stack_range(dst as i64, v);\n                }\n                Instruction::SetState", "                    self.set_stack_range(dst as i64 + 1, v);\n                }\n                Instruction::SetState", "kani", "runtime"),
         ("am03", RT + "vm.rs", "                    let res = ringbuf.process(i, t);", "                    let res = ringbuf.process(t, i);", "kani", "runtime"),
